@@ -97,6 +97,18 @@ CHECKS = {
         note="Trusted: z3, CPython, rsx. Module/package/file names are concrete. Six hazard classes of MoveGlobal are known findings identified by root-cause tags; a failure is suppressed only if all its tags are known.",
         design="§5 C05",
     ),
+    "C17": dict(
+        level="other",
+        text="Solver-decided, path-exhaustive within stated bounds (Pattern B): EncapsulateField, IntroduceFactory, MethodObject, LocalToField and UseFunction get_changes over corpus K17 (field read/written/augmented inside and outside the class and from a second module, class constructed in several places, function with locals, method with a local, function whose body recurs) with symbolic identifier spellings (field vs local vs parameter collisions) and solver-split options; each result is a refusal or must parse, keep every module importable and print the same output.",
+        note="Trusted: z3, CPython, rsx. Bound: corpus K17, one-letter identifiers.",
+        design="§5 C17",
+    ),
+    "C19": dict(
+        level="other",
+        text="Solver-decided, path-exhaustive within stated bounds (Pattern B): SimilarFinder.get_matches (RawSimilarFinder, _ASTMatcher, CodeTemplate) on corpus K19 with symbolic identifier spellings - 'equal wildcards bound to equal code' is decided by whether z3 makes the spellings coincide - and solver-split region bounds; rope's matches must equal those of a reference structural matcher (extent, containment in the region, equal bound trees). Restructure.get_changes with goal = pattern must leave ast.dump unchanged; with commuted / re-expressed goals over precedence-sensitive instances the program must parse and print the same output.",
+        note="Trusted: z3, CPython, rsx, the 50-line reference matcher. Expression patterns only. One genuine defect class (parentheses of bound operands dropped) is a known finding.",
+        design="§5 C19",
+    ),
 }
 
 NOT_YET = "check not built yet (see DESIGN.md §5 for the planned decision procedure)"
